@@ -28,6 +28,11 @@ class SSlice(Sym):
     kind = "slice"
 
 
+class SComplex(Sym):
+    """static kind: a complex number; z is the Val term (VComplex)"""
+    kind = "complex"
+
+
 class SType(Sym):
     """type(x) of a dynamic value: an Int type id"""
     kind = "type"
@@ -35,8 +40,10 @@ class SType(Sym):
 
 WRAP["fset"] = SFset
 WRAP["slice"] = SSlice
+WRAP["complex"] = SComplex
 SORTS["fset"] = VL
 SORTS["slice"] = Val
+SORTS["complex"] = Val
 
 _to_val_orig = ops.to_val
 
@@ -44,7 +51,7 @@ _to_val_orig = ops.to_val
 def to_val_ext(x):
     if isinstance(x, SFset):
         return Val.VFset(x.z)
-    if isinstance(x, SSlice):
+    if isinstance(x, (SSlice, SComplex)):
         return x.z
     return _to_val_orig(x)
 
@@ -54,7 +61,8 @@ to_val = to_val_ext
 
 
 class RecSpec(object):
-    def __init__(self, name, fn, argsorts, retsort):
+    def __init__(self, name, fn, argsorts, retsort, post=None):
+        self.post = post
         self.name = name
         self.fn = fn
         self.argsorts = argsorts
@@ -67,6 +75,7 @@ class SpecEnv(object):
     def __init__(self):
         self.funcs = {}         # name -> python function (plain spec, merged to ite)
         self.recs = {}          # name -> RecSpec
+        self.lemmas = {}        # name -> python function (statement), proved by induction
         self.consts = {}        # name -> value available in every spec expression
         self.prims = {}         # name -> symbolic primitive  f(ctx, *args) -> value
         self.sources = {}
@@ -74,7 +83,7 @@ class SpecEnv(object):
         self.expr_cache = {}
         self.facts_sink = None
         self.depth = 0
-        self.max_unfold = 1
+        self.max_unfold = 2
         self.exc_names = {}
         self._install_prims()
 
@@ -83,8 +92,10 @@ class SpecEnv(object):
         for name, fn in vars(mod).items():
             if getattr(fn, "_spec_kind", None) == "plain":
                 self.funcs[name] = fn
+            elif getattr(fn, "_spec_kind", None) == "lemma":
+                self.lemmas[name] = fn
             elif getattr(fn, "_spec_kind", None) == "rec":
-                self.recs[name] = RecSpec(name, fn, fn._spec_args, fn._spec_ret)
+                self.recs[name] = RecSpec(name, fn, fn._spec_args, fn._spec_ret, getattr(fn, '_spec_post', None))
         for name, v in getattr(mod, "SPEC_CONSTS", {}).items():
             self.consts[name] = v
 
@@ -118,6 +129,38 @@ class SpecEnv(object):
     def val_wf(self, v):
         return typeof_axiom(v)
 
+    def perm_facts(self, engine, st, p, l):
+        """facts about a permutation p of the list l: every predicate that is a conjunction over
+        the elements (and the length) agrees on both; both have the same canonical form"""
+        facts = []
+        for name in self.consts.get("PERM_INVARIANT", []):
+            v, fs = self.evaluate(engine, "%s(p) == %s(l)" % (name, name), st, st, {"p": p, "l": l})
+            facts.extend(fs)
+            facts.append(ops._z(truth(v)))
+        facts.append(self.uf["canon"](p.z) == self.uf["canon"](l.z))
+        return facts
+
+    def spine_facts(self, engine, st, l):
+        """unfoldings of the element-wise list predicates at a list with an explicit spine"""
+        facts = []
+        for name in self.consts.get("PERM_INVARIANT", []):
+            if name in self.recs:
+                v, fs = self.evaluate(engine, "%s(l)" % name, st, st, {"l": l})
+                facts.extend(fs)
+        return facts
+
+    def canon_facts(self, engine, st, c, l):
+        """c = canon(l): canonical, and its elements are elements of l (duplicates collapse), so every
+        predicate that is a conjunction over the elements carries over from l to c"""
+        facts = [self.uf["canon"](c.z) == c.z]
+        for name in self.consts.get("PERM_INVARIANT", []):
+            if name == "vlen":
+                continue
+            v, fs = self.evaluate(engine, "implies(%s(l), %s(c))" % (name, name), st, st, {"c": c, "l": l})
+            facts.extend(fs)
+            facts.append(ops._z(truth(v)))
+        return facts
+
     def quick_feasible(self, pc):
         """cheap pruning: only syntactic (a conjunct simplified to false)"""
         if not pc:
@@ -144,6 +187,37 @@ class SpecEnv(object):
             self.facts_sink = saved
         return v, facts
 
+    def is_lemma_use(self, expr):
+        node = ast.parse(expr.strip(), mode="eval").body
+        return isinstance(node, ast.Call) and isinstance(node.func, ast.Name) and node.func.id in self.lemmas
+
+    def lemma_obligations(self, engine):
+        """[(id, hyps, goal)]: base and step of each lemma's structural induction"""
+        out = []
+        for name, fn in sorted(self.lemmas.items()):
+            args = {a: wrap_as(fresh("L_" + a, SORTS[srt]), srt) for a, srt in fn._spec_args}
+            ind = fn._spec_induct
+            order = [a for a, _ in fn._spec_args]
+            h = SVal(fresh("L_h", Val))
+            t = SVL(fresh("L_t", VL))
+            base = dict(args)
+            base[ind] = SVL(VL.nil)
+            step = dict(args)
+            step[ind] = SVL(VL.cons(h.z, t.z))
+            ih = dict(args)
+            ih[ind] = t
+            st = engine_state()
+            for label, scope, hyp_scope in (("base", base, None), ("step", step, ih)):
+                hyps = []
+                if hyp_scope is not None:
+                    v, facts = self.evaluate(engine, "%s(%s)" % (name, ", ".join(order)), st, st, hyp_scope)
+                    hyps.extend(facts)
+                    hyps.append(ops._z(truth(v)))
+                v, facts = self.evaluate(engine, "%s(%s)" % (name, ", ".join(order)), st, st, scope)
+                hyps.extend(facts)
+                out.append(("lemma:%s/%s" % (name, label), hyps, ops._z(truth(v))))
+        return out
+
     def evaluate_bool(self, engine, expr, st, pre, scope):
         v, facts = self.evaluate(engine, expr, st, pre, scope)
         z = truth(v)
@@ -153,10 +227,22 @@ class SpecEnv(object):
 
     # -- recursive spec functions -------------------------------------------------------------
     def rec_app(self, ctx, rs, args):
-        zargs = [self.to_sort(a, s) for a, s in zip(args, rs.argsorts)]
+        zargs = [z3.simplify(self.to_sort(a, s)) for a, s in zip(args, rs.argsorts)]
         app = rs.z(*zargs)
-        if self.depth < self.max_unfold:
-            key = app.sexpr()
+        if rs.post:
+            # a fact about every application, proved separately by structural induction (lemma `recpost:<name>`)
+            names = [a.arg for a in self.fn_node(rs.fn).args.args]
+            sc = dict(zip(names, [wrap_as(z, s) for z, s in zip(zargs, rs.argsorts)]))
+            sc["result"] = wrap_as(app, rs.retsort)
+            d = self.depth
+            self.depth = self.max_unfold + 1
+            try:
+                pv = Ctx(self, ctx.engine, ctx.st, ctx.pre, sc).ev(ast.parse(rs.post, mode="eval").body)
+            finally:
+                self.depth = d
+            self.fact(ops._z(truth(pv)))
+        if self.depth < self.max_unfold or (self.depth < 12 and self.concrete_spine(zargs)):
+            key = (app.sexpr(), self.depth)
             if key not in self.unfold_cache:
                 self.depth += 1
                 sink = self.facts_sink
@@ -173,6 +259,19 @@ class SpecEnv(object):
             for f in self.unfold_cache[key]:
                 self.fact(f)
         return wrap_as(app, rs.retsort)
+
+    def concrete_spine(self, zargs):
+        """some list argument is syntactically nil / cons(...): unfolding is structurally bounded"""
+        for z in zargs:
+            if z.sort() == VL:
+                zs = z3.simplify(z)
+                if z3.is_app(zs) and zs.decl().name() in ("cons", "nil"):
+                    return True
+            if z.sort() == Val:
+                zs = z3.simplify(z)
+                if z3.is_app(zs) and zs.decl().name() in ("VTuple", "VSlice", "VFset") and self.depth < 4:
+                    return True
+        return False
 
     def to_sort(self, v, sort):
         if sort == "int":
@@ -191,7 +290,7 @@ class SpecEnv(object):
                 return to_vl(v)
         if sort == "f64" and isinstance(v, SF64):
             return v.z
-        if sort == "slice" and isinstance(v, (SSlice, SVal)):
+        if sort in ("slice", "complex") and isinstance(v, (SSlice, SComplex, SVal)):
             return v.z
         raise Unsupported("cannot convert %r to sort %s" % (v, sort))
 
@@ -224,6 +323,8 @@ class SpecEnv(object):
         unutf8 = U("unutf8", Bytes, Bytes)
         utf8_ok = U("utf8_ok", Bytes, Bool)
         utf8_valid = U("utf8_valid", Bytes, Bool)
+        utf8_strict_valid = U("utf8_strict_valid", Bytes, Bool)
+        hashable_list = U("hashable_list", VL, Bool)
         dec = U("dec", Int, Bytes)
         undec = U("undec", Bytes, Int)
         is_decimal = U("is_decimal", Bytes, Bool)
@@ -265,9 +366,13 @@ class SpecEnv(object):
 
         def p_utf8(ctx, s):
             t = utf8(zseq(s))
-            self.fact(z3.Implies(utf8_ok(zseq(s)), z3.And(unutf8(t) == zseq(s), utf8_valid(t))))
+            # T-UTF8: the (surrogatepass) UTF-8 coding is total and injective; the strict codec accepts
+            # exactly the encodings of text without lone surrogates
+            self.fact(z3.And(unutf8(t) == zseq(s), utf8_valid(t), utf8_strict_valid(t) == utf8_ok(zseq(s))))
             return SBytes(t)
         P["utf8"] = p_utf8
+        P["utf8_strict_valid"] = lambda ctx, b: b2v(utf8_strict_valid(zseq(b)))
+        P["hashable_list"] = lambda ctx, l: b2v(hashable_list(self.to_sort(l, "vl")))
         P["utf8_ok"] = lambda ctx, s: b2v(utf8_ok(zseq(s)))
         P["utf8_valid"] = lambda ctx, b: b2v(utf8_valid(zseq(b)))
         P["unutf8"] = lambda ctx, b: SStr(unutf8(zseq(b)))
@@ -332,7 +437,18 @@ class SpecEnv(object):
         P["mkcomplex"] = lambda ctx, a, b: SVal(Val.VComplex(a.z, b.z))
         P["mkslice"] = lambda ctx, a, b, c: SVal(Val.VSlice(to_val(a), to_val(b), to_val(c)))
         P["val"] = lambda ctx, x: SVal(to_val(x))
-        P["order_of"] = lambda ctx, l: SVL(order_of(self.to_sort(l, "vl")))
+        def p_order_of(ctx, l):
+            lz = SVL(self.to_sort(l, "vl"))
+            o = SVL(order_of(lz.z))
+            if not getattr(self, "_in_perm", False):
+                self._in_perm = True
+                try:
+                    for f in self.perm_facts(ctx.engine, ctx.st, o, lz):
+                        self.fact(f)
+                finally:
+                    self._in_perm = False
+            return o
+        P["order_of"] = p_order_of
         P["canon"] = lambda ctx, l: SVL(canon(self.to_sort(l, "vl")))
         P["typeid"] = lambda ctx, v: i2v(typeof(to_val(v)))
 
@@ -355,11 +471,17 @@ class SpecEnv(object):
         def p_ite(ctx, c, a, b):
             return merge_values(truth(c), a, b)
         P["ite"] = p_ite
+        P["same"] = lambda ctx, a, b: b2v(to_val(a) == to_val(b))
         P["iff"] = lambda ctx, a, b: b2v(ops._z(truth(a)) == ops._z(truth(b)))
         P["tid"] = lambda ctx, t: TYPE_ID[t]
 
 
 _FALLTHROUGH = object()
+
+
+def engine_state():
+    from .engine import State
+    return State()
 
 
 def wrap_as(z, sort):
@@ -545,6 +667,10 @@ class Ctx(object):
                 return self.S.rec_app(self, self.S.recs[n], args)
             if n in self.S.funcs:
                 return self.S.run_function(self, self.S.funcs[n], args)
+            if n in self.S.lemmas:
+                fn = self.S.lemmas[n]
+                conv = [wrap_as(self.S.to_sort(a, srt), srt) for a, (_, srt) in zip(args, fn._spec_args)]
+                return self.S.run_function(self, fn, conv)
             if n in self.S.prims:
                 return self.S.prims[n](self, *args)
             if n == "bytes" and len(args) == 1 and isinstance(args[0], list):
